@@ -90,6 +90,9 @@ func (e *Engine) verifyFunc(ct *Contract) (res *FuncVC) {
 		return res
 	}
 	res.Fn = fn
+	for _, cl := range ct.Clauses {
+		cl.Attached = 0
+	}
 	c := newCtx(e, e.modeOf(ct), key)
 	res.Ctx = c
 	c.rte = ct.RTE
@@ -158,6 +161,12 @@ func (e *Engine) verifyFunc(ct *Contract) (res *FuncVC) {
 	for _, cl := range ct.Clauses {
 		if cl.InScope && cl.Attached == 0 {
 			c.leave("call-site assertion never in scope: " + cl.Text)
+		}
+		if !cl.InScope && cl.Attached == 0 && (cl.Kind == "assert_before_call" || cl.Kind == "assert_after_call") {
+			// the call the contract speaks about is gone (or is no longer the k-th call
+			// to that function): what was asserted there no longer holds anywhere
+			o := c.oblige(cl.Kind, fmt.Sprintf("%s:%s/unattached#%d", cl.Kind, cl.Name, cl.Idx), "true", "false", c.pos(fn.Pos()))
+			o.Desc = "no call site for: " + cl.Text
 		}
 	}
 	// ghost postconditions are ordinary ensures using ghost(name)
